@@ -38,6 +38,8 @@ WRAPPERS = {"sorted", "list", "set", "frozenset", "tuple", "iter", "reversed"}
 MAX_DEPTH = 12
 MAX_STEPS = 20000
 
+STR_METHODS = {"strip", "lstrip", "rstrip", "lower", "upper", "split", "rsplit", "replace", "removeprefix", "removesuffix", "partition", "rpartition", "title", "capitalize", "encode", "splitlines", "casefold", "zfill", "ljust", "rjust", "center", "count", "find", "index", "format"}
+
 NONE = ("const", None)
 TRUE = ("const", True)
 FALSE = ("const", False)
@@ -670,6 +672,12 @@ class Evaluator:
     def index(self, v, i):
         if v[0] == "tuple" and i[0] == "const" and isinstance(i[1], int) and -len(v[1]) <= i[1] < len(v[1]):
             return v[1][i[1]]
+        if v[0] == "obj" and i[0] == "const" and isinstance(i[1], int):
+            o = self.heap_objs[v[1]]
+            if any(b.split(".")[-1] == "NamedTuple" for b in self.repo.external_bases(o.cls)):
+                names = [k for c in reversed(self.repo.mro(o.cls)) for k in c.ann_attrs]
+                if 0 <= i[1] < len(names) and names[i[1]] in o.fields:
+                    return o.fields[names[i[1]]]
         if v[0] == "mcoll" and self.heap_colls[v[1]].kind == "dict":
             items = self.heap_colls[v[1]].items
             if items and all(it[0] == "elem" and it[1][0] == "pair" and it[1][1][0] == "const" for it in items):
@@ -1037,7 +1045,7 @@ class Evaluator:
         init = self.repo.lookup_method(ci, "__init__")
         if init is not None:
             self.call_function(init, [ref, *args], kwargs, node)
-        elif any(c.is_dataclass for c in self.repo.mro(ci)):
+        elif any(c.is_dataclass for c in self.repo.mro(ci)) or any(b.split(".")[-1] == "NamedTuple" for b in self.repo.external_bases(ci)):
             names = []
             for c in reversed(self.repo.mro(ci)):
                 for k in c.ann_attrs:
@@ -1118,6 +1126,10 @@ class Evaluator:
             r = self.pure_method(recv, name, args, kwargs, node)
             if r is not None:
                 return r
+        if name in STR_METHODS and t in ("sym", "var", "index", "attr", "fstr", "const", "result"):
+            # a pure function of its operands; not modelled further
+            self.problem(f"string method .{name}()", node, soft=True)
+            return ("opaque", f"str.{name}", (self.snapshot(recv), *[self.snapshot(a) for a in args]))
         if t in ("sym", "var", "index", "result", "attr", "stage"):
             return self.effect_call(recv, name, args, kwargs, node)
         if t == "caught":
@@ -1143,6 +1155,18 @@ class Evaluator:
             return ("cmp", name, s, a[0]) if a else None
         return None
 
+    def replace_content(self, m: MColl, ref, make, node) -> None:
+        """In-place update that is not an addition (`-=`, discard, difference_update): new content = make(old content),
+        guarded by the conditions entered since the collection was created."""
+        cur = self.snapshot(ref)
+        d = min(m.depth, len(self.ctx))
+        since = self.ctx[d:]
+        if any(e[0] == "for" for e in since):
+            self.problem("elements removed from a collection inside a loop", node, soft=True)
+        cond = c_and([e[1] for e in since if e[0] == "if"])
+        new = make(cur)
+        m.items = [("splat", new if cond == TRUE else ("ite", cond, new, cur))]
+
     def mcoll_method(self, m: MColl, ref, name, args, kwargs, node):
         if name in ("append", "add") and len(args) == 1:
             self.add_item(m, args[0])
@@ -1161,13 +1185,19 @@ class Evaluator:
             self.problem("dict.setdefault on a collection being built", node)
             return ("opaque", "setdefault", ())
         if name in ("discard", "remove") and len(args) == 1 and m.kind == "set":
-            single = self.new_coll("set")
-            self.add_item(single, args[0])
-            cur = self.snapshot(ref)
-            d = min(m.depth, len(self.ctx))
-            if tuple(self.ctx[d:]):
-                self.problem("element removed from a collection under a condition / in a loop", node, soft=True)
-            m.items = [("splat", ("setop", "-", cur, self.snapshot(("mcoll", single.cid))))]
+            single = ("coll", "set", (("elem", self.snapshot(args[0])),))
+            self.replace_content(m, ref, lambda cur: ("setop", "-", cur, single), node)
+            return NONE
+        if name in ("difference_update", "intersection_update") and args and m.kind == "set":
+            op = "-" if name == "difference_update" else "&"
+            others = [self.snapshot(x) for x in args]
+
+            def make(cur):
+                for x in others:
+                    cur = ("setop", op, cur, x)
+                return cur
+
+            self.replace_content(m, ref, make, node)
             return NONE
         if name == "copy" and not args:
             c = self.new_coll(m.kind)
@@ -1353,11 +1383,8 @@ class Evaluator:
                 self.add_item(m, v, splat=True)
                 return False
             if isinstance(s.op, ast.Sub) and m.kind == "set":
-                snap = self.snapshot(cur)
-                d = min(m.depth, len(self.ctx))
-                if tuple(self.ctx[d:]):
-                    self.problem("set difference update under a condition / in a loop", s, soft=True)
-                m.items = [("splat", ("setop", "-", snap, self.snapshot(v)))]
+                other = self.snapshot(v)
+                self.replace_content(m, cur, lambda c: ("setop", "-", c, other), s)
                 return False
         self.bind(s.target, self.binop(s.op, cur, v, s), fr)
         return False
